@@ -1,0 +1,68 @@
+//go:build verif
+
+package roundrobin
+
+// Contracts for the deductive verifier in /verif (govc); comments only. Property C13.
+//
+// Representation invariant of a RoundRobin selector: every entry of the weighted cycle is an index into the
+// member list, the member list is small enough for the weight computation, and the map exists.
+//@ pred rrInv(r) = r != nil && r.mapValues != nil && len(r.endpoints) <= 16777216 && (forall j {r.staticWeightRouterCache[j]} :: (0 <= j && j < len(r.staticWeightRouterCache)) ==> (0 <= r.staticWeightRouterCache[j] && r.staticWeightRouterCache[j] < len(r.endpoints)))
+//
+//@ func New
+//@   allocates
+//@   ensures [C13] rrInv(result) && fresh(result) && len(result.endpoints) == 0 && result.enableWeight == enableWeight
+//@   safety [C13]
+//
+//@ func (*RoundRobin).Select
+//@   requires rrInv(r)
+//@   modifies r.lastPosition, r.lastStaticWeightPosition
+//@   ensures [C13] (len(r.endpoints) == 0) == (result1 != nil)
+//@   ensures [C13] (len(r.endpoints) > 0 && len(r.staticWeightRouterCache) == 0) ==> (result0 == r.endpoints[u64(old(r.lastPosition) + 1) % len(r.endpoints)] && r.lastPosition == u64(old(r.lastPosition) + 1))
+//@   ensures [C13] (len(r.endpoints) > 0 && len(r.staticWeightRouterCache) != 0) ==> (result0 == r.endpoints[r.staticWeightRouterCache[u64(old(r.lastStaticWeightPosition) + 1) % len(r.staticWeightRouterCache)]] && r.lastStaticWeightPosition == u64(old(r.lastStaticWeightPosition) + 1))
+//@   ensures rrInv(r)
+//@   safety [C13]
+//
+//@ func (*RoundRobin).reBuildLocked
+//@   requires r != nil && r.mapValues != nil && len(r.endpoints) <= 16777216
+//@   modifies r.lastPosition, r.lastStaticWeightPosition, r.staticWeightRouterCache
+//@   allocates
+//@   ensures [C13] rrInv(r)
+//@   ensures [C13] r.lastPosition < max(1, len(r.endpoints))
+//@   safety [C13]
+//
+//@ func (*RoundRobin).addLocked
+//@   requires r != nil && r.mapValues != nil && len(r.endpoints) < 16777216 && (cap(r.endpoints) == 0 || allocated(r.endpoints))
+//@   modifies r.endpoints, elems(r.endpoints), mapcells(r.mapValues)
+//@   allocates
+//@   ensures [C13] err != nil ==> (len(r.endpoints) == old(len(r.endpoints)) && hdr(r.endpoints) == old(hdr(r.endpoints)))
+//@   ensures [C13] err == nil ==> (len(r.endpoints) == old(len(r.endpoints)) + 1 && r.endpoints[old(len(r.endpoints))] == ep)
+//@   ensures [C13] objof(r.endpoints) == old(objof(r.endpoints)) || fresh(r.endpoints)
+//@   ensures r.mapValues != nil
+//@   safety [C13]
+//
+//@ func (*RoundRobin).Add
+//@   requires rrInv(r) && len(r.endpoints) < 16777216 && (cap(r.endpoints) == 0 || allocated(r.endpoints))
+//@   modifies r.endpoints, elems(r.endpoints), mapcells(r.mapValues), r.lastPosition, r.lastStaticWeightPosition, r.staticWeightRouterCache
+//@   allocates
+//@   ensures [C13] result == nil ==> rrInv(r)
+//@   safety [C13]
+//
+//@ func (*RoundRobin).Refresh
+//@   requires r != nil && len(eps) <= 16777216
+//@   modifies r.mapValues, r.endpoints, r.lastPosition, r.lastStaticWeightPosition, r.staticWeightRouterCache
+//@   allocates
+//@   ensures [C13] rrInv(r)
+//@   ensures [C13] cap(r.endpoints) == 0 || fresh(r.endpoints)
+//@   ensures [C13] len(r.endpoints) <= len(eps)
+//@   loop 0 invariant r != nil && r.mapValues != nil && fresh(r.mapValues) && len(r.endpoints) <= rangeindex + 1 && (cap(r.endpoints) == 0 || fresh(r.endpoints)) && (objof(r.endpoints) == objof(atentry(0, r.endpoints)) || loopfresh(0, r.endpoints))
+//@   loop 0 modifies r.endpoints, elems(r.endpoints), mapcells(r.mapValues)
+//@   safety [C13]
+//
+//@ func (*RoundRobin).Remove
+//@   requires rrInv(r) && (cap(r.endpoints) == 0 || allocated(r.endpoints))
+//@   modifies r.endpoints, elems(r.endpoints), mapcells(r.mapValues), r.lastPosition, r.lastStaticWeightPosition, r.staticWeightRouterCache
+//@   allocates
+//@   ensures [C13] rrInv(r)
+//@   ensures [C13] len(r.endpoints) <= old(len(r.endpoints))
+//@   loop 0 invariant r != nil && r.mapValues != nil && hdr(r.endpoints) == old(hdr(r.endpoints))
+//@   safety [C13]
